@@ -127,7 +127,12 @@ func c18Msgs(r *rng, n int) []jsonrpc2.Message {
 			if r.chance(1, 3) {
 				e = errors.New("boom é")
 			}
-			m, _ := jsonrpc2.NewResponse(jsonrpc2.NewNumberID(int32(r.intn(1000))), payloads[1+r.intn(len(payloads)-1)], e)
+			var res any = payloads[1+r.intn(len(payloads)-1)]
+			if r.chance(1, 4) {
+				// a success response whose result is null (what reply(ctx, nil, nil) writes, e.g. for LSP shutdown), or false / 0 / ""
+				res = []any{nil, false, 0, ""}[r.intn(4)]
+			}
+			m, _ := jsonrpc2.NewResponse(jsonrpc2.NewNumberID(int32(r.intn(1000))), res, e)
 			out = append(out, m)
 		}
 	}
@@ -276,6 +281,15 @@ func runC18(e *emitter, tier string, seed uint64) {
 		}
 		doStream([]byte(sb.String()), []int{1 + r.intn(9)}, nil, "malformed")
 	}
+	// 2b. one connection used in both roles at once: it answers incoming calls while other goroutines send
+	// notifications and calls of their own. Whatever it writes must be a sequence of whole frames.
+	nmux := 3
+	if tier == "thorough" {
+		nmux = 40
+	}
+	for i := 0; i < nmux; i++ {
+		c18Mux(e, r, i)
+	}
 	// 3. call / response matching against a scripted peer over net.Pipe
 	rounds := 30
 	if tier == "thorough" {
@@ -297,9 +311,9 @@ func c18Rpc(e *emitter, r *rng, rounds int) {
 		conn.Go(ctx, func(ctx context.Context, reply jsonrpc2.Replier, req jsonrpc2.Request) error { return reply(ctx, nil, nil) })
 		var mu sync.Mutex
 		cancels := map[int32]context.CancelFunc{}
-		modes := make([]int, n) // 0 answer, 1 answer late (after others), 2 never (caller cancels), 3 cancel racing reply, 4 also send a response for an unknown id first
+		modes := make([]int, n) // 0 answer, 1 answer late (after others), 2 never (caller cancels), 3 cancel racing reply, 4 also send a response for an unknown id first, 5 answer six times in one piece
 		for i := range modes {
-			modes[i] = r.intn(5)
+			modes[i] = r.intn(6)
 		}
 		var sent []string
 		var late []int32
@@ -351,6 +365,17 @@ func c18Rpc(e *emitter, r *rng, rounds int) {
 				case 4:
 					respond(id + 1000)
 					respond(id)
+				case 5:
+					// a peer that repeats itself must not stall the connection for the other calls
+					// (the copies arrive in one piece, so the read loop meets them back to back)
+					body := fmt.Sprintf(`{"jsonrpc":"2.0","id":%d,"result":%d}`, id, id)
+					frame := fmt.Sprintf("Content-Length: %d\r\n\r\n%s", len(body), body)
+					mu.Lock()
+					for k := 0; k < 6; k++ {
+						sent = append(sent, fmt.Sprint(id))
+					}
+					mu.Unlock()
+					c2.Write([]byte(strings.Repeat(frame, 6)))
 				}
 			}
 			for i := len(late) - 1; i >= 0; i-- {
@@ -390,9 +415,19 @@ func c18Rpc(e *emitter, r *rng, rounds int) {
 				}()
 				time.Sleep(300 * time.Microsecond) // let the call take its id before the next thread starts
 				startMu.Unlock()
-				rv := <-rc
+				var rv ret
+				stuck := false
+				select {
+				case rv = <-rc:
+				case <-time.After(5 * time.Second):
+					// the call did not even honour its own deadline (2 s): the connection is wedged
+					stuck = true
+				}
 				o := outcome{thread: t, id: fmt.Sprint(rv.id)}
 				switch {
+				case stuck:
+					o.id = fmt.Sprint(nextID)
+					o.res = "stuck"
 				case rv.err == nil:
 					o.res = fmt.Sprintf("r%d", result)
 				case errors.Is(rv.err, context.Canceled) || errors.Is(rv.err, context.DeadlineExceeded):
@@ -427,4 +462,71 @@ func c18Rpc(e *emitter, r *rng, rounds int) {
 		}
 		e.emit(fmt.Sprintf("rpc %d %d", round, e.emitted), "rpc", strings.Join(ms, ","), strings.Join(ob, ";"), ss)
 	}
+}
+
+// muxConn records what the connection writes (pausing after a header, which is when another writer would cut in) and
+// feeds it what the peer sends.
+type muxConn struct {
+	mu  sync.Mutex
+	out bytes.Buffer
+	in  *io.PipeReader
+}
+
+func (c *muxConn) Read(p []byte) (int, error) { return c.in.Read(p) }
+func (c *muxConn) Close() error               { return c.in.Close() }
+func (c *muxConn) Write(p []byte) (int, error) {
+	c.mu.Lock()
+	c.out.Write(p)
+	c.mu.Unlock()
+	if bytes.HasPrefix(p, []byte("Content-Length")) {
+		time.Sleep(150 * time.Microsecond)
+	}
+	return len(p), nil
+}
+
+func c18Mux(e *emitter, r *rng, round int) {
+	pr, pw := io.Pipe()
+	mc := &muxConn{in: pr}
+	conn := jsonrpc2.NewConn(jsonrpc2.NewStream(mc))
+	ctx, stop := context.WithCancel(context.Background())
+	defer stop()
+	var replied sync.WaitGroup
+	nIn := 20 + r.intn(20)
+	replied.Add(nIn)
+	conn.Go(ctx, func(ctx context.Context, reply jsonrpc2.Replier, req jsonrpc2.Request) error {
+		defer replied.Done()
+		return reply(ctx, map[string]string{"echo": strings.Repeat("r", 40)}, nil)
+	})
+	senders, each := 3, 15
+	var wg sync.WaitGroup
+	for g := 0; g < senders; g++ {
+		wg.Add(1)
+		go func(g int) {
+			defer wg.Done()
+			for k := 0; k < each; k++ {
+				conn.Notify(ctx, "note", map[string]any{"g": g, "k": k, "pad": strings.Repeat("n", 30+k)})
+			}
+		}(g)
+	}
+	// the peer: incoming calls, written frame by frame
+	go func() {
+		for k := 0; k < nIn; k++ {
+			body := fmt.Sprintf(`{"jsonrpc":"2.0","id":%d,"method":"ask","params":{"k":%d}}`, 1000+k, k)
+			fmt.Fprintf(pw, "Content-Length: %d\r\n\r\n%s", len(body), body)
+		}
+	}()
+	wg.Wait()
+	done := make(chan struct{})
+	go func() { replied.Wait(); close(done) }()
+	select {
+	case <-done:
+	case <-time.After(5 * time.Second):
+	}
+	time.Sleep(5 * time.Millisecond)
+	stop()
+	pw.Close()
+	mc.mu.Lock()
+	wire := append([]byte(nil), mc.out.Bytes()...)
+	mc.mu.Unlock()
+	e.emit(fmt.Sprintf("mux %d %d", round, e.emitted), "mux", fmt.Sprint(nIn+senders*each), hx(string(wire)))
 }
